@@ -209,6 +209,8 @@ impl IoHandle {
     /// Send an I/O command. This fails if the channel has hung up, but does not block the thread.
     pub fn send(&self, command: IoCommand) -> Result<(), SendError<IoCommand>> {
         #[cfg(feature = "verif")]
+        crate::verif::sched::io_point("io.send", &|| true);
+        #[cfg(feature = "verif")]
         let command = match crate::verif::io::on_send(command, &self.completion_sender) {
             Some(command) => command,
             None => return Ok(()),
@@ -228,6 +230,8 @@ impl IoHandle {
     /// Block the current thread on receiving an I/O completion.
     /// This fails if the channel has hung up.
     pub fn recv(&self) -> Result<CompleteIo, RecvError> {
+        #[cfg(feature = "verif")]
+        crate::verif::sched::io_point("io.recv", &|| !self.completion_receiver.is_empty());
         #[cfg(feature = "verif")]
         return self.completion_receiver.recv().inspect(crate::verif::io::on_recv);
         #[cfg(not(feature = "verif"))]
